@@ -63,7 +63,13 @@ func notifierTokens(fn *ssa.Function) []string {
 					}
 				}
 				sort.Strings(rs)
-				reason = strings.Join(rs, "+")
+				// one token per reason: how the call sites are merged or split does not matter
+				for _, r := range rs {
+					set[tok+"("+r+")"] = true
+				}
+				if len(rs) > 0 {
+					continue
+				}
 			}
 			tok += "(" + reason + ")"
 		default:
@@ -94,7 +100,7 @@ func c10(c *core.Ctx) {
 	}
 	// frozen reference of today's effects (confirmed by reading)
 	ref := map[string]string{
-		"Add":          "NotifyDropped(ErrDropExpired+ErrDropExpiredInflight+ErrDropQueueFull),NotifyInflightAdded(-1),NotifyMsgQueueAdded(+1)",
+		"Add":          "NotifyDropped(ErrDropExpired),NotifyDropped(ErrDropExpiredInflight),NotifyDropped(ErrDropQueueFull),NotifyInflightAdded(-1),NotifyMsgQueueAdded(+1)",
 		"Read":         "NotifyDropped(ErrDropExceedsMaxPacketSize),NotifyDropped(ErrDropExpired),NotifyInflightAdded(delta),NotifyMsgQueueAdded(delta)",
 		"ReadInflight": "",
 		"Remove":       "NotifyInflightAdded(-1),NotifyMsgQueueAdded(-1)",
